@@ -1,0 +1,134 @@
+//go:build verif
+
+package tree
+
+import "fmt"
+
+// Read-only exports for the verification harness in /verif. Compiled only with -tags verif.
+
+// VerifShape returns the node structure in preorder: for every node depth, n, then its n keys
+// (mapped to ints by key).
+func (m Map[K, V]) VerifShape(key func(K) int) []int {
+	var out []int
+	var walk func(x *node[K, V], d int)
+	walk = func(x *node[K, V], d int) {
+		out = append(out, d, int(x.n))
+		for i := 0; i < int(x.n); i++ {
+			out = append(out, key(x.keys[i]))
+		}
+		if !x.leaf() {
+			for i := 0; i <= int(x.n); i++ {
+				walk(x.children[i], d+1)
+			}
+		}
+	}
+	walk(m.t.root, 0)
+	return out
+}
+
+// VerifStats describes the live structure.
+type VerifStats struct {
+	Height  int // number of levels (1 for a lone root)
+	Nodes   int
+	Keys    int
+	MinFill int // smallest n over non-root nodes (-1 if there is none)
+	MaxFill int
+}
+
+// VerifCheck checks the representation invariants of the live structure and returns a
+// description of the first violation, or "".
+//   - keys strictly ascending along the in-order walk (w.r.t. the tree's own compare)
+//   - n <= maxKVs everywhere, n >= minKVs for every non-root node, root n >= 1 unless empty
+//   - a node has no children or exactly n+1, all leaves at the same depth
+//   - parent back-links are consistent, the root has no parent
+//   - key/value slots at index >= n hold isZeroK/isZeroV, child slots beyond n are nil
+//   - size equals the number of stored keys
+func (m Map[K, V]) VerifCheck(isZeroK func(K) bool, isZeroV func(V) bool) (string, VerifStats) {
+	t := m.t
+	st := VerifStats{MinFill: -1}
+	leafDepth := -1
+	var prev *K
+	var walk func(x *node[K, V], parent *node[K, V], d int) string
+	walk = func(x *node[K, V], parent *node[K, V], d int) string {
+		st.Nodes++
+		if x.parent != parent {
+			return fmt.Sprintf("node at depth %d has a wrong parent link", d)
+		}
+		n := int(x.n)
+		if n < 0 || n > maxKVs {
+			return fmt.Sprintf("node at depth %d has n=%d outside [0,%d]", d, n, maxKVs)
+		}
+		if parent != nil {
+			if n < minKVs {
+				return fmt.Sprintf("non-root node at depth %d has n=%d < minKVs=%d", d, n, minKVs)
+			}
+			if st.MinFill == -1 || n < st.MinFill {
+				st.MinFill = n
+			}
+		} else if n == 0 && !x.leaf() {
+			return "root has no keys but has children"
+		}
+		if n > st.MaxFill {
+			st.MaxFill = n
+		}
+		for i := n; i < maxKVs; i++ {
+			if !isZeroK(x.keys[i]) {
+				return fmt.Sprintf("node at depth %d (n=%d) retains a key in dead slot %d", d, n, i)
+			}
+			if !isZeroV(x.values[i]) {
+				return fmt.Sprintf("node at depth %d (n=%d) retains a value in dead slot %d", d, n, i)
+			}
+		}
+		if x.leaf() {
+			for i := 0; i < branchFactor; i++ {
+				if x.children[i] != nil {
+					return fmt.Sprintf("leaf at depth %d has a child in slot %d", d, i)
+				}
+			}
+			if leafDepth == -1 {
+				leafDepth = d
+			} else if leafDepth != d {
+				return fmt.Sprintf("leaves at depths %d and %d", leafDepth, d)
+			}
+			if d+1 > st.Height {
+				st.Height = d + 1
+			}
+		} else {
+			for i := n + 1; i < branchFactor; i++ {
+				if x.children[i] != nil {
+					return fmt.Sprintf("node at depth %d (n=%d) retains a child in dead slot %d", d, n, i)
+				}
+			}
+		}
+		for i := 0; i <= n; i++ {
+			if !x.leaf() {
+				if x.children[i] == nil {
+					return fmt.Sprintf("inner node at depth %d (n=%d) lacks child %d", d, n, i)
+				}
+				if e := walk(x.children[i], x, d+1); e != "" {
+					return e
+				}
+			}
+			if i < n {
+				k := x.keys[i]
+				if prev != nil && t.compare(*prev, k) >= 0 {
+					return fmt.Sprintf("keys not strictly ascending at depth %d index %d", d, i)
+				}
+				kk := k
+				prev = &kk
+				st.Keys++
+			}
+		}
+		return ""
+	}
+	if e := walk(t.root, nil, 0); e != "" {
+		return e, st
+	}
+	if st.Keys != t.size {
+		return fmt.Sprintf("size=%d but %d keys are stored", t.size, st.Keys), st
+	}
+	return "", st
+}
+
+// VerifMap exposes the underlying map of a Set.
+func (s Set[T]) VerifMap() Map[T, struct{}] { return Map[T, struct{}]{t: s.t} }
